@@ -38,6 +38,10 @@ CLAIMS = {
    technique="abstract evaluation of chan_push/chan_pop on abstract stacks; enter/leave pairing and injectivity of the constant dispatch tables vs. the catalogue's PAIR macros; typestate evaluation of per-model thread-state guards and end-of-trace lint",
    text="chan_pop/chan_push are explored on abstract stacks (empty, 1, 2, capacity-1, capacity, top equal/different, duplicate flags) and must implement match-the-top / refuse-full-stack exactly; for all 8 models every PAIR_x (and frozen hand-written) enter/leave pair must push and pop the same value on the same channel, and every (channel,value) must have exactly one enter and one leave event (dispatch tables evaluated exactly); every declared event is evaluated under the 6 consistent (running,active,out-of-CPU) thread states against the model's frozen precondition; each model's finish hook is evaluated in linter mode with open regions and its failure followed to main. Not decided: that a value 'means what its name documents' when both sides are swapped consistently.",
    design_ref="§4 C08"),
+ "C10": dict(
+   technique="error-discipline dataflow: per I/O call site, abstract path exploration with the failure injected (derived failure values for internal wrappers), propagation call site by call site to a die or a documented warn-only sink; ordering analysis of destructive calls after a failed copy",
+   text="Every call site of open/write/close/fopen/fread/fwrite/fclose/remove/rmdir/mkdir/stat/opendir/closedir and of the internal wrappers (mkpath, mkdir_if_need, json_serialize_to_file_pretty, move_thread_to_final) in libovni and common.c is enumerated from the resolved program; with the failure injected every path must die or return an error that each caller turns into its own failure, up to a die or the documented warn-only relocation sink (three frozen best-effort exceptions); remove() of a stream's temporary file must be unreachable after a failed fread/fwrite/fclose of its copy; write_evbuf must die on a failing write. parson's file serialiser is checked the same way. Not decided: that the run 'still leaves a complete, valid trace' as a whole-run outcome.",
+   design_ref="§4 C10"),
  "C13": dict(
    technique="abstract exploration (merging worklist over clang CFGs) of system_connect and every model's create/connect/finish hooks to compute registered vs. declared PRV types per output; constant-table label coverage; abstract evaluation of prv_advance/prv_close/prf_add/prf_close",
    text="Per output (thread, cpu, both breakdown traces) the set of PRV types that can reach prv_register is computed from the code and constant tables and must be contained in the set reaching pcf_add_type on the same output; every constant value a model can write to a labelled channel (dispatch tables, task-body pushes, connect defaults, mux defaults, thread states, CPU affinity) must have a label; prv_advance / prv_close / write_line / prf_add / prf_close are evaluated on boundary cases (time going back, header rewrite, row bounds, duplicate and unset rows) and prv->time has a single writer. Not decided: that row numbers passed to prv_register are below the declared row count (a data fact of gindex numbering) and the zero/duplicate emission policy at run time.",
